@@ -265,7 +265,7 @@ theorem derive1_readonly (s : State) (i : Nat) (o : Obj) (m : Mode) (sel : Sel) 
   exact ⟨obj, h1, h2, h5⟩
 
 /-- `survives_pickle`: the object `__setstate__` builds from the pickle of a read-only object is read-only, its decoded
-    (new, independent) arrays are non-writeable (repair 7a2532a; on the unrepaired code they were writeable). -/
+    (new, independent) arrays are non-writeable (repair 1211231; on the unrepaired code they were writeable). -/
 theorem survives_pickle (s : State) (o : Obj) (mc : MaskClass) (hro : o.ro = true) :
     let r := unpickleNR s o mc none true
     ∃ obj, r.2.objs[r.1]? = some obj ∧ obj.ro = true ∧ Agrees r.2 obj := by
